@@ -117,6 +117,10 @@ package runtime
 //@   ensures implies(dyntype(w, *Buffer) && old(sticky(payload(w, *Buffer).b)) != nil, err != nil)
 //@   ensures implies(err != nil, failedDuring)
 //@   ensures implies(old(failedDuring), failedDuring)
+// the error handed on is the flush error itself, or wraps it (errors.Is finds the writer's cause)
+//@   let FLUSHERR = 0 @ entry
+//@   let FLUSHERR = result @ after b.Flush#1
+//@   ensures implies(err != nil, wraps(err, ghost(FLUSHERR)))
 
 // WriteString (static template text; in development mode the text comes from the
 // watched text file, see C16): the error of the underlying write is returned.
